@@ -171,6 +171,24 @@ func (e *env) onSent(s server.VerifSent) {
 
 // stateKey is the canonical final state of the lease plugin of the chain.
 func (e *env) stateKey() string {
+	return e.leaseKey() + e.tableKey()
+}
+
+// tableKey is the static lease table in force (only where a reload takes part).
+func (e *env) tableKey() string {
+	if !e.spec.Reload {
+		return ""
+	}
+	t := file.VerifTable()
+	var ks []string
+	for k, v := range t {
+		ks = append(ks, k+"="+v)
+	}
+	sort.Strings(ks)
+	return fmt.Sprintf(" static=%v", ks)
+}
+
+func (e *env) leaseKey() string {
 	if e.rng != nil {
 		d := e.rng.VerifDump()
 		var recs []string
